@@ -902,46 +902,86 @@ def _abort(sock, action):
     sock.close()
 
 
+class Inconclusive(Exception):
+    """An awaited real-kernel condition was not reached within its wall-clock cap (or the loopback setup failed):
+    nothing can be concluded; recorded in the evidence notes, never a violation."""
+
+
+CAP = 90.0        # generous wall-clock cap for every awaited condition on real sockets
+
+
+def _await(cond, what, step=None, cap=CAP):
+    """Run step() (if any) and poll cond() until it holds; raise Inconclusive after `cap` seconds."""
+    import time
+    t0 = time.time()
+    while True:
+        if step is not None:
+            step()
+        if cond():
+            return
+        if time.time() - t0 > cap:
+            raise Inconclusive(f"{what} not reached within {cap:.0f} s")
+        time.sleep(0.002)
+
+
+def _tcp_state(sock):
+    """Kernel state of a TCP socket (1 = ESTABLISHED, 7 = CLOSE after a reset, 8 = CLOSE_WAIT after the peer's FIN)."""
+    import socket, struct
+    return struct.unpack("B", sock.getsockopt(socket.IPPROTO_TCP, socket.TCP_INFO, 1))[0]
+
+
 def real_server_scene(action, point, seed):
     """Real Server on loopback, three raw peers; peer 1 resets (SO_LINGER 0) or closes at `point` of an exchange in
-    which every connection gets a 300 kB response through small buffers.  Returns (why | None, exception | None)."""
+    which every connection gets a 300 kB response through small buffers.  Returns (why | None, exception | None);
+    raises Inconclusive when an awaited condition is not reached in time.  Every judgement is made on a state that
+    has been awaited: the kernel reports the victim's connection as no longer established, the siblings hold all
+    their bytes."""
     import random, socket, time
     from hio.base import tyming
     from hio.core.tcp import serving
     rng = random.Random(seed)
-    port = c09._free_port()
     tymist = tyming.Tymist()
-    server = serving.Server(ha=("127.0.0.1", port), bs=4096, tymth=tymist.tymen())
-    peers = []
+    peers, server = [], None
     try:
-        if not server.reopen():
-            return "cannot listen on loopback", None
-        for i in range(3):
-            p = socket.socket(socket.AF_INET, socket.SOCK_STREAM)
-            p.setsockopt(socket.SOL_SOCKET, socket.SO_RCVBUF, 4096)
-            p.connect(("127.0.0.1", port))
-            p.setblocking(False)
-            peers.append(p)
-        t0 = time.time()
-        while len(server.ixes) < 3:
-            server.serviceConnects()
-            if time.time() - t0 > 10:
-                return "connections not accepted in 10 s", None
+        try:
+            port = c09._free_port()
+            server = serving.Server(ha=("127.0.0.1", port), bs=4096, tymth=tymist.tymen())
+            if not server.reopen():
+                raise Inconclusive("cannot listen on loopback")
+            for i in range(3):
+                p = socket.socket(socket.AF_INET, socket.SOCK_STREAM)
+                p.setsockopt(socket.SOL_SOCKET, socket.SO_RCVBUF, 4096)
+                p.settimeout(CAP)
+                p.connect(("127.0.0.1", port))
+                p.setblocking(False)
+                peers.append(p)
+        except OSError as ex:
+            raise Inconclusive(f"loopback setup failed: {ex}")
+        _await(lambda: len(server.ixes) == 3, "three accepted connections", step=server.serviceConnects)
         rms = [server.ixes[p.getsockname()] for p in peers]
+        victim_cs = rms[1].cs
         want = [rng.randbytes(300000) for _ in peers]
         got = [bytearray() for _ in peers]
         alive = [True, True, True]
+        failure = []
 
         def act():
             _abort(peers[1], action)
             alive[1] = False
 
         def svc():
+            if failure:
+                return
             try:
                 server.service()
             except Exception as ex:
-                return ex
-            return None
+                failure.append(ex)
+            for i, p in enumerate(peers):
+                if alive[i]:
+                    try:
+                        got[i].extend(p.recv(65536))
+                    except BlockingIOError:
+                        pass
 
         if point == 0:
             act()
@@ -950,41 +990,37 @@ def real_server_scene(action, point, seed):
                 p.send(b"request %d" % i)
         if point == 1:
             act()
-        time.sleep(0.02)
-        ex = svc()
-        if ex:
-            return f"Server.service raised {type(ex).__name__}", ex
+        svc()
         for i, rm in enumerate(rms):
             if rm.ca in server.ixes:
                 server.transmitIx(want[i], rm.ca)
-        ex = svc()
-        if ex:
-            return f"Server.service raised {type(ex).__name__}", ex
+        svc()
         if point == 2:
             act()
-        for n in range(4000):
-            if point == 3 and n == 3:
-                act()
-            ex = svc()
-            if ex:
-                return f"Server.service raised {type(ex).__name__}", ex
-            for i, p in enumerate(peers):
-                if alive[i]:
-                    try:
-                        d = p.recv(65536)
-                        got[i].extend(d)
-                    except BlockingIOError:
-                        pass
-            if not alive[1] and all(len(got[i]) == len(want[i]) for i in (0, 2)) and (rms[1].cutoff or rms[1].ca not in server.ixes):
-                break
-            time.sleep(0.001)
+        for n in range(3):
+            svc()
+        if point == 3:
+            act()
+        # wait until the kernel itself reports the victim's connection as gone, then give the server passes to notice
+        def victim_gone():
+            try:
+                return victim_cs.fileno() < 0 or _tcp_state(victim_cs) != 1
+            except OSError:
+                return True
+        _await(lambda: failure or victim_gone(), "peer's reset/close visible in the kernel", step=svc)
+        for n in range(5):
+            svc()
+        _await(lambda: failure or all(len(got[i]) >= len(want[i]) and bytes(rms[i].rxbs) == b"request %d" % i for i in (0, 2)),
+               "siblings' traffic complete", step=svc)
+        if failure:
+            return f"Server.service raised {type(failure[0]).__name__}", failure[0]
         for i in (0, 2):
             if bytes(got[i]) != want[i]:
-                return f"sibling {i} received {len(got[i])} of {len(want[i])} bytes (or wrong bytes) after peer 1 {action} at point {point}", None
-            if rms[i].cutoff or bytes(rms[i].rxbs) != b"request %d" % i:
-                return f"sibling {i} was disturbed (cutoff={rms[i].cutoff}, rxbs={bytes(rms[i].rxbs)!r})", None
+                return f"sibling {i} received wrong bytes after peer 1 {action} at point {point}", None
+            if rms[i].cutoff:
+                return f"sibling {i} was marked cutoff", None
         if not rms[1].cutoff:
-            return f"connection of the peer that did {action} at point {point} is not marked cutoff (in ixes: {rms[1].ca in server.ixes})", None
+            return f"connection of the peer that did {action} at point {point} is not marked cutoff although the kernel reports it gone (in ixes: {rms[1].ca in server.ixes})", None
         return None, None
     finally:
         for p in peers:
@@ -992,88 +1028,121 @@ def real_server_scene(action, point, seed):
                 p.close()
             except OSError:
                 pass
-        server.close()
+        if server is not None:
+            server.close()
 
 
 def real_client_scene(cls_tls, action, pending, seed):
     """Real Client against a raw listener; the accepted peer resets or closes while the client is idle or has a
-    large txbs pending; Client.service() must not raise and the client must end cutoff."""
+    large txbs pending; Client.service() must not raise and, once the kernel reports the connection as no longer
+    established, the client must end cutoff."""
     import random, socket, time
     from hio.base import tyming
     from hio.core.tcp import clienting
     rng = random.Random(seed)
-    lst = socket.socket(socket.AF_INET, socket.SOCK_STREAM)
-    lst.setsockopt(socket.SOL_SOCKET, socket.SO_RCVBUF, 4096)
-    lst.bind(("127.0.0.1", 0))
-    lst.listen(5)
-    lst.setblocking(False)
     tymist = tyming.Tymist()
-    client = clienting.Client(ha=lst.getsockname(), bs=4096, tymth=tymist.tymen())
-    conn = None
+    lst = conn = client = None
     try:
-        client.reopen()
-        t0 = time.time()
-        while conn is None or not client.connected:
+        try:
+            lst = socket.socket(socket.AF_INET, socket.SOCK_STREAM)
+            lst.setsockopt(socket.SOL_SOCKET, socket.SO_RCVBUF, 4096)
+            lst.bind(("127.0.0.1", 0))
+            lst.listen(5)
+            lst.setblocking(False)
+            client = clienting.Client(ha=lst.getsockname(), bs=4096, tymth=tymist.tymen())
+            client.reopen()
+        except OSError as ex:
+            raise Inconclusive(f"loopback setup failed: {ex}")
+        box = []
+
+        def connect_step():
             client.serviceConnect()
-            if conn is None:
+            if not box:
                 try:
-                    conn, _ = lst.accept()
+                    box.append(lst.accept()[0])
                 except BlockingIOError:
                     pass
-            if time.time() - t0 > 10:
-                return "client did not connect in 10 s", None
-        if pending:
-            client.tx(rng.randbytes(2000000))
-            client.service()
-        _abort(conn, action)
-        conn = None
-        for n in range(2000):
+        _await(lambda: box and client.connected, "client connected", step=connect_step)
+        conn = box[0]
+        cs = client.cs
+        failure = []
+
+        def svc():
+            if failure:
+                return
             try:
                 client.service()
             except Exception as ex:
-                return f"Client.service raised {type(ex).__name__}", ex
-            if client.cutoff:
-                break
-            time.sleep(0.001)
+                failure.append(ex)
+        if pending:
+            client.tx(rng.randbytes(2000000))
+            svc()
+        _abort(conn, action)
+        conn = None
+
+        def gone():
+            try:
+                return client.cs is not cs or cs.fileno() < 0 or _tcp_state(cs) != 1
+            except OSError:
+                return True
+        _await(lambda: failure or gone(), "peer's reset/close visible in the kernel", step=svc)
+        for n in range(5):
+            svc()
+        if failure:
+            return f"Client.service raised {type(failure[0]).__name__}", failure[0]
         if not client.cutoff:
-            return f"client not marked cutoff after peer {action}", None
+            return f"client not marked cutoff after peer {action} although the kernel reports the connection gone", None
         return None, None
     finally:
         if conn is not None:
             conn.close()
-        lst.close()
-        client.close()
+        if lst is not None:
+            lst.close()
+        if client is not None:
+            client.close()
 
 
 def real_sends_only_probe():
-    """Peer closes (FIN); the server then only services sends, twice: the second send meets the RST.  On Linux that is
-    EPIPE.  Returns the exception (or None)."""
+    """Peer closes (FIN); the server then only services sends: once the kernel shows the FIN (CLOSE_WAIT) a first send
+    still succeeds and provokes the peer's RST; once that is visible (CLOSE) the next send is EPIPE on Linux.  Returns
+    the exception (or None); raises Inconclusive when a state is not reached in time."""
     import socket, time
     from hio.base import tyming
     from hio.core.tcp import serving
-    port = c09._free_port()
     tymist = tyming.Tymist()
-    server = serving.Server(ha=("127.0.0.1", port), bs=4096, tymth=tymist.tymen())
+    server = None
     p = socket.socket(socket.AF_INET, socket.SOCK_STREAM)
     try:
-        server.reopen()
-        p.connect(("127.0.0.1", port))
-        t0 = time.time()
-        while not server.ixes and time.time() - t0 < 10:
-            server.serviceConnects()
+        try:
+            port = c09._free_port()
+            server = serving.Server(ha=("127.0.0.1", port), bs=4096, tymth=tymist.tymen())
+            if not server.reopen():
+                raise Inconclusive("cannot listen on loopback")
+            p.settimeout(CAP)
+            p.connect(("127.0.0.1", port))
+        except OSError as ex:
+            raise Inconclusive(f"loopback setup failed: {ex}")
+        _await(lambda: len(server.ixes) == 1, "accepted connection", step=server.serviceConnects)
         ca = list(server.ixes)[0]
+        cs = server.ixes[ca].cs
         p.close()
-        time.sleep(0.05)
+        _await(lambda: _tcp_state(cs) != 1, "peer's FIN visible in the kernel")
         for k in range(3):
             server.transmitIx(b"late data %d" % k, ca)
             try:
                 server.serviceSendsAllIx()
             except Exception as ex:
                 return ex
-            time.sleep(0.05)
+            if k == 0:
+                _await(lambda: _tcp_state(cs) == 7, "peer's RST visible in the kernel", cap=20.0)
         return None
     finally:
-        server.close()
+        try:
+            p.close()
+        except OSError:
+            pass
+        if server is not None:
+            server.close()
 
 
 def gen_post_fault(rng):
@@ -1138,27 +1207,41 @@ def extra(tier, ctx):
         else:
             ctx.violations.append({"kind": "real-kernel", "why": f"{name}: {why}", "case": {"real": name, "seed": ctx.seed}})
 
+    def inconclusive(name, e):
+        rep["real_kernel"].append({"scene": name, "result": f"inconclusive: {e}"})
+        ctx.notes.append(f"real-kernel scene {name} inconclusive: {e}")
+
     for action in ("rst", "fin"):
         for point in (0, 1, 2, 3):
             name = f"server/{action}/point{point}"
             try:
                 why, ex = real_server_scene(action, point, ctx.seed * 10 + point)
-            except Exception as e:
-                why, ex = f"harness: {type(e).__name__}: {e}", None
+            except Inconclusive as e:
+                inconclusive(name, e)
+                continue
+            except OSError as e:          # the loopback environment, not hio's servicing (that is caught inside the scene)
+                inconclusive(name, f"environment: {e}")
+                continue
             note(name, why, ex)
         for pending in (False, True):
             name = f"client/{action}/{'pending' if pending else 'idle'}"
             try:
                 why, ex = real_client_scene(False, action, pending, ctx.seed)
-            except Exception as e:
-                why, ex = f"harness: {type(e).__name__}: {e}", None
+            except Inconclusive as e:
+                inconclusive(name, e)
+                continue
+            except OSError as e:
+                inconclusive(name, f"environment: {e}")
+                continue
             note(name, why, ex)
+    name = "server/fin/sends-only-twice"
     try:
         ex = real_sends_only_probe()
-    except Exception as e:
-        ex = e
-    rep["real_kernel"].append({"scene": "server/fin/sends-only-twice", "result": "ok" if ex is None else type(ex).__name__})
-    if ex is not None:
-        note("server/fin/sends-only-twice", f"serviceSendsAllIx raised {type(ex).__name__}", ex)
-        rep["real_kernel"].pop()
+    except (Inconclusive, OSError) as e:
+        inconclusive(name, e)
+        return rep
+    if ex is None:
+        rep["real_kernel"].append({"scene": name, "result": "ok"})
+    else:
+        note(name, f"serviceSendsAllIx raised {type(ex).__name__}", ex)
     return rep
